@@ -142,6 +142,11 @@ def generate(rng, opts):
     if std is not None:
         for child in rng.sample(STD_SUBMODULES[std], rng.choice([1, len(STD_SUBMODULES[std])])):
             compiled.append({"parent": f"{PK}.{std}", "name": child, "form": rng.choice(["so", "abi3", "pyd", "pyc"])})
+    own_compiled = [c["name"] for c in compiled if c["parent"] == PK]
+    if own_compiled and rng.random() < 0.5:
+        # a dataclass whose base class lives in a compiled module of the package (which static analysis skips): the
+        # dataclasses extension shipped with Griffe walks the bases to build __init__
+        modules[rng.choice(names)]["dataclass_child"] = rng.choice(own_compiled)
     stubs = [n for n in names if cfg["stubs"] and rng.random() < 0.5]
     ops = []
     for _ in range(rng.choice([1, 2, 2, 3, 4])):
@@ -163,7 +168,7 @@ def generate(rng, opts):
         }
         ops.append(op)
     # a long-lived process does not clean sys.modules between two loads
-    return {"world": {"modules": modules, "compiled": compiled, "stubs": stubs, "pkgutil_init": cfg["pkgutil_init"], "pyc_top": cfg["pyc_top"], "pyc_top_name": pyc_name, "lazy_pkg": cfg["lazy_pkg"], "lazy_getattr": cfg["lazy_getattr"], "pth_import": cfg["pth_import"]}, "ops": ops, "cfg": cfg, "keep_modules": rng.random() < 0.4,
+    return {"world": {"modules": modules, "compiled": compiled, "stubs": stubs, "pkgutil_init": cfg["pkgutil_init"], "pyc_top": cfg["pyc_top"], "pyc_top_name": pyc_name, "lazy_pkg": cfg["lazy_pkg"], "lazy_getattr": cfg["lazy_getattr"], "getattr_mutates": cfg["lazy_getattr"] and rng.random() < 0.5, "pth_import": cfg["pth_import"]}, "ops": ops, "cfg": cfg, "keep_modules": rng.random() < 0.4,
             # the user (or the tool embedding Griffe) already has the package directory on sys.path
             "sp_on_sys_path": rng.random() < 0.3}
 
@@ -217,9 +222,15 @@ def render_world(world):
         if m.get("all_call"):
             lines.append(f"__all__ = ['f', str(open('<ROOT>/sp0/sent/{n}.allcall', 'w').close() or 'K')]")
         lines += ["", "def f():", '    """doc"""', "    return 1", "", "class K:", "    x = 1", ""]
+        if m.get("dataclass_child"):
+            lines += ["from dataclasses import dataclass", f"from {PK}.{m['dataclass_child']} import Base", "", "@dataclass", "class D(Base):", "    y: int = 0", ""]
         if world.get("lazy_getattr") and n == PK:
             children = sorted(o[len(n) + 1 :] for o in mods if o.startswith(n + ".") and "." not in o[len(n) + 1 :])
-            lines += ["import importlib", f"_lazy = {children!r}", "def __dir__():", "    return _lazy + ['f', 'K']", "def __getattr__(name):", "    if name in _lazy:", "        return importlib.import_module(__name__ + '.' + name)", "    raise AttributeError(name)", ""]
+            lines += ["import importlib", f"_lazy = {children!r}", "def __dir__():", "    return _lazy + ['f', 'K']", "def __getattr__(name):"]
+            if world.get("getattr_mutates"):
+                # the hook itself touches sys.path, whatever attribute is probed (`__wrapped__`, `__path__`...)
+                lines += [f"    sys.path.append('/c15-appended/getattr-' + name)"]
+            lines += ["    if name in _lazy:", "        return importlib.import_module(__name__ + '.' + name)", "    raise AttributeError(name)", ""]
         rel = "/".join(n.split(".")) + ("/__init__.py" if n in pkgs else ".py")
         if m.get("latin1"):
             files[rel] = ("# -*- coding: latin-1 -*-\n# caf\xe9\n" + "\n".join(lines) + "\n").replace("<ROOT>", "<ROOT>").encode("latin-1")
